@@ -73,7 +73,7 @@ def run_listener(obs, binary, name, count, seed, nproc):
                     continue
                 d['stderr'] = d.get('stderr', '')[:1500]
                 obs.add_viol('lst:%s:%s:%s' % (d['listener'], d['mode'], k), d,
-                             source=dict(binary=os.path.basename(binary), env=dict(VP_SEED=env['VP_SEED'], VP_COUNT=1, VP_FIRST=d.get('index'), VP_LMODE='?')))
+                             source=dict(binary=os.path.basename(binary), env=dict(VP_SEED=env['VP_SEED'], VP_COUNT=1, VP_FIRST=d.get('index'), VP_LMODE=d.get('mode_index'))))
 
 
 def memcheck_listener(obs, work, name, seed):
@@ -225,4 +225,10 @@ def c19(tier, seed):
         work.cleanup()
 
 
+def _tunnel(work):
+    src = vlib.lib_sources() + vlib.core_sources() + [os.path.join(VERIF, 'mon', x) for x in ('tun_talker.c', 'tun_listener.c', 'tunnel.c')]
+    return vlib.compile_many(work, 'tunnel_asan', src, vlib.ASAN_FLAGS, extra_inc=[os.path.join(vlib.REPO, 'examples')])
+
+
+BUILDERS = dict([('lst_%s_asan' % n, (lambda n: (lambda work: build_listener(work, n)))(n)) for n in LISTENERS] + [('tunnel_asan', _tunnel)])
 CHECKS = dict(C18=c18, C19=c19)
